@@ -7,7 +7,8 @@ import OpcuaModel.Gen.SendFacts
 
   (a) when: the delay of `scheduleRenewal` (expression matched in the source by
       the `renewexpr` generator topic) against "no earlier than half of the
-      lifetime, and before it ends";
+      lifetime, and before it ends" — holds for every lifetime ≥ 1 ms since the
+      whole-second truncation was repaired;
   (b) how: the renewal in the sender / renewal LTS `SendSeq` (shared with C11):
       one renewal per token, no deadlock in any interleaving, correct numbering
       of everything sent around a renewal inside the C11 guard;
@@ -16,48 +17,33 @@ import OpcuaModel.Gen.SendFacts
 namespace Opcua.Props.C16
 open Opcua Opcua.SendRenew Opcua.SendSeq
 
-/-- what the generator matched in `scheduleRenewal` -/
+/-- what the generator matched in `scheduleRenewal`:
+    `time.Duration(float64(lifetime) * 0.75)` — no truncation beyond the nanosecond -/
 theorem C16_renew_expr_facts :
-    Gen.RenewExpr.fracNum = 3 ∧ Gen.RenewExpr.fracDen = 4 ∧ Gen.RenewExpr.truncUnitNs = 1000000000 := by decide
+    Gen.RenewExpr.fracNum = 3 ∧ Gen.RenewExpr.fracDen = 4 ∧ Gen.RenewExpr.truncUnitNs = 1 := by decide
 
-/-- the delay is ⌊0.75·L/1000⌋ whole seconds for a lifetime of L ms -/
-theorem C16_delay_formula (L : Nat) : renewDelayNs L = (3 * L / 4000) * 1000000000 := by
+/-- the delay is exactly three quarters of the lifetime (L ms = L·10^6 ns) -/
+theorem C16_delay_formula (L : Nat) : renewDelayNs L = 750000 * L := by
   simp only [renewDelayNs, Gen.RenewExpr.fracNum, Gen.RenewExpr.fracDen, Gen.RenewExpr.truncUnitNs]
   omega
 
-/-- EXACT characterisation: the renewal falls into [L/2, L) iff the lifetime is
-    at least 4 s, or in [1334, 2000] ms, or in [2667, 4000) ms -/
-theorem C16_window_iff (L : Nat) :
-    InWindow L ↔ (4000 ≤ L ∨ (1334 ≤ L ∧ L ≤ 2000) ∨ (2667 ≤ L ∧ L < 4000)) := by
+/-- EXACT characterisation: the renewal falls into [L/2, L) for every lifetime
+    of at least one millisecond (the wire carries whole milliseconds), and only then -/
+theorem C16_window_iff (L : Nat) : InWindow L ↔ 1 ≤ L := by
   simp only [InWindow, C16_delay_formula]
-  have h1 : 4000 * (3 * L / 4000) ≤ 3 * L := Nat.mul_div_le _ _
-  have h2 : 3 * L < 4000 * (3 * L / 4000) + 4000 := Nat.lt_mul_div_succ _ (by decide)
-  generalize 3 * L / 4000 = q at *
-  by_cases c1 : L < 1334
-  · have : q = 0 := by omega
-    subst this; omega
-  · by_cases c2 : L < 2667
-    · have : q = 1 := by omega
-      subst this; omega
-    · by_cases c3 : L < 4000
-      · have : q = 2 := by omega
-        subst this; omega
-      · omega
+  omega
 
-/-- PARTIAL (guard: lifetime ≥ 4 s): renewal no earlier than half of the lifetime and before it ends -/
-theorem C16_window_partial (L : Nat) (h : 4000 ≤ L) : InWindow L := (C16_window_iff L).2 (Or.inl h)
+/-- FULL STRENGTH: renewal no earlier than half of the lifetime and before it ends -/
+theorem C16_window (L : Nat) (h : 1 ≤ L) : InWindow L := (C16_window_iff L).2 h
 
-/-- FINDING C16.renew-delay-truncated-to-seconds: below 1334 ms the delay is 0
-    (the token is renewed at once, and so is every token issued in answer), and in
-    (2000, 2667) ms the renewal comes before half of the lifetime -/
-theorem C16_finding_truncation :
-    renewDelayNs 1000 = 0 ∧ ¬ InWindow 1000 ∧ renewDelayNs 1333 = 0 ∧
-    renewDelayNs 2500 = 1000000000 ∧ ¬ InWindow 2500 ∧ ¬ InWindow 2001 ∧ ¬ InWindow 2666 ∧ InWindow 2667 := by
-  decide
-
-/-- the whole failing set: lifetimes for which the renewal is immediate -/
-theorem C16_immediate_iff (L : Nat) : renewDelayNs L = 0 ↔ L < 1334 := by
+/-- the renewal is immediate only for a zero lifetime -/
+theorem C16_immediate_iff (L : Nat) : renewDelayNs L = 0 ↔ L = 0 := by
   rw [C16_delay_formula]; omega
+
+/-- the lifetimes that used to fail (whole-second truncation, repaired) -/
+theorem C16_former_witnesses :
+    renewDelayNs 1000 = 750000000 ∧ InWindow 1000 ∧ renewDelayNs 2500 = 1875000000 ∧ InWindow 2500 ∧ InWindow 1 ∧ ¬ InWindow 0 := by
+  decide
 
 /-- (b) one renewal per token: a renewal is only started for the active token
     whose scheduled renewal has not run yet, so no instance is renewed twice -/
